@@ -264,6 +264,41 @@ func runC16(c *Ctx) {
 		b, _ := json.Marshal(env)
 		sources = append(sources, source{it, b, "signed+stamped", st})
 	}
+	// sources whose series has small letters (a valid code): the reference of a
+	// correction has to carry the series as the source has it
+	nMixed := 0
+	for i, it := range invs {
+		if i%4 != 0 {
+			continue
+		}
+		docB, err := gx.DocJSON(it.Data)
+		if err != nil {
+			continue
+		}
+		d, err := jmut.Parse(docB)
+		if err != nil {
+			continue
+		}
+		d.Set("series", jmut.S("Fa-2024b"))
+		var b []byte
+		var verr error
+		if p, _ := Safely(func() {
+			env, e := gx.EnvelopDoc(d.Bytes())
+			if verr = e; e == nil {
+				if verr = env.Validate(); verr == nil {
+					b, verr = json.Marshal(env)
+				}
+			}
+		}); p != nil || verr != nil {
+			continue
+		}
+		if n, perr := jmut.Parse(b); perr != nil || n.Get("doc").Get("series") == nil || n.Get("doc").Get("series").S != "Fa-2024b" {
+			continue // (a regime that rewrites the series itself)
+		}
+		sources = append(sources, source{it, b, "mixed-case-series", map[string]string{}})
+		nMixed++
+	}
+	c.R.Set("sources_with_a_mixed_case_series", nMixed)
 	// the same invoices issued in an earlier rate period (rates named by key
 	// then resolve differently on the source's date and on the correction's)
 	nOld := 0
